@@ -186,11 +186,43 @@ package core
 //@ func (*JApiCore).drainCurrentScanner loop 1
 //@   invariant coreScanInv(core) && core.scannersStack == old(core.scannersStack)
 
+// Explicit "( )" contexts (C11). openUp(d): some context on the Parent chain from d (inclusive) was opened with "(" and
+// is not closed yet. implicitTo(a, c): every context from a (inclusive) up to c (exclusive) is implicit. Both are abstract
+// predicates; the axioms of the two functions below are their inductive definitions over the entry state.
+//@ opaque pred openUp(d int)
+//@ opaque pred implicitTo(a int, c int)
+
+//@ func (*JApiCore).HasUnclosedExplicitContext(core)
+//@   property C11
+//@   requires core != nil
+//@   axiom !openUp(0)
+//@   axiom forallp(a, openUp(a), imp(a != 0, openUp(a) == ((*directive.Directive)(a).HasExplicitContext || openUp((*directive.Directive)(a).Parent))))
+//@   modifies nothing
+//@   ensures[C11,@unclosed-iff] result == openUp(core.currentContextDirective)
+//@ func (*JApiCore).HasUnclosedExplicitContext loop 1
+//@   invariant openUp(d) == openUp(core.currentContextDirective)
+
+//@ func (*JApiCore).closeLastExplicitContext(core)
+//@   property C01,C11
+//@   requires coreScanInv(core)
+//@   axiom forallp(a, implicitTo(a, a), implicitTo(a, a))
+//@   axiom forallp(a, c, implicitTo(a, c), imp(implicitTo(a, c) && c != 0 && !(*directive.Directive)(c).HasExplicitContext,
+//@       implicitTo(a, (*directive.Directive)(c).Parent)))
+//@   modifies core.currentContextDirective
+//@   ensures[C11,@closes-innermost-explicit] imp(result == nil, exists(w, implicitTo(old(core.currentContextDirective), w) && w != 0
+//@       && (*directive.Directive)(w).HasExplicitContext && core.currentContextDirective == (*directive.Directive)(w).Parent))
+//@   ensures[C11,@nothing-to-close] imp(result != nil, implicitTo(old(core.currentContextDirective), 0)
+//@       && core.currentContextDirective == nil)
+//@   ensures[C11,C07] imp(result != nil, result.File == core.scanner.file)
+//@ func (*JApiCore).closeLastExplicitContext loop 1
+//@   invariant implicitTo(old(core.currentContextDirective), core.currentContextDirective)
+
 //@ func (*JApiCore).processEOF(core)
 //@   property C01,C11
 //@   requires coreScanInv(core)
 //@   modifies treeMod(core)
 //@   ensures imp(result == nil, coreScanInv(core) && core.currentDirective == nil)
+//@   ensures[C11,@eof-unclosed] imp(result == nil && len(core.scannersStack.stack) == 0, !openUp(core.currentContextDirective))
 
 //@ func (*JApiCore).isScanningFinished(core)
 //@   property C01,C09
